@@ -104,6 +104,7 @@ type Exec struct {
 	inlinedFns    map[string]bool
 	usedContracts map[string]bool
 	usedExterns   map[string]bool
+	hookFired     map[string]bool // on-call hook names that matched a call while this unit was executed
 	sweepSet      map[*ssa.Function]bool
 	topName       string
 	liveObjs      []liveObj
@@ -130,7 +131,7 @@ type liveObj struct {
 func newExec(p *Prog, db *ContractDB) *Exec {
 	x := &Exec{vc: newVC(p), p: p, db: db, closures: map[string]*closureInfo{}, memSym: map[string]string{}, memVer: map[string]int{},
 		memType: map[string]types.Type{}, unsupported: map[string]bool{}, maxDepth: 3, callCount: map[string]int{}, oblNames: map[string]int{},
-		inlinedFns: map[string]bool{}, usedContracts: map[string]bool{}, usedExterns: map[string]bool{}, fwCount: map[string]int{}}
+		inlinedFns: map[string]bool{}, usedContracts: map[string]bool{}, usedExterns: map[string]bool{}, hookFired: map[string]bool{}, fwCount: map[string]int{}}
 	return x
 }
 
